@@ -15,7 +15,8 @@ RULE = ("samples of 1-12 trees over 3-8 taxa (namespace sometimes with a hole = 
         "None lengths, tree weights None / 1 / dyadic / all zero, use_tree_weights on and off, thresholds {None, 0, 1/4, 1/2, "
         "GREATER_THAN_HALF, 5/8, 3/4, 1} plus ATTAINABLE frequencies k/n (n trees, n in {3,5,6,7,9,...,15,49,98,103,107}, unit weights, handed over "
         "as float(k)/n and judged by the integer comparison count >= k; oracle only); unanimous splits must be reported as exactly 1.0; targets from the sample or perturbed; support as fraction / percentage / label; samples ASSEMBLED by TreeArray merges (a + b, +=, update, extend) "
-        "whose operands are kept, grown, and judged like the result; every case is a "
+        "whose operands are kept, grown, and judged like the result; histories of summarising calls with DIFFERENT settings on one "
+        "collection (percentage, label, set_edge_lengths, attribute name), each judged under its own settings only; every case is a "
         "self-contained description (tokens of every tree) that `--replay` re-runs; non-trivial = at least two distinct topologies")
 MODELLED_NOT_VERIFIED = [
     "C05: the Lean model (Model/C05.lean on C01/C04) is hand-written from SplitDistribution.count_splits_on_tree / calc_freqs / consensus_tree, "
@@ -27,8 +28,9 @@ MODELLED_NOT_VERIFIED = [
     "thresholds are dyadic so exact and float verdicts coincide; means and variances are compared within 1e-9 / 1e-6), HPD / 5-95 quantiles "
     "and annotation objects (not in the statement); node ages are checked by the oracle only (not modelled)",
     "C05: the hypotheses of the majority-rule theorems are derived for the driver's records of well-formed ROOTED trees (treeRecOf_rooted_hts) "
-    "and of well-formed not-rooted trees whose seed has >= 3 children as drawn (treeRecOf_unrooted_hts_partial); not-rooted trees whose "
-    "seed is opened up or suppressed by the encoding are covered by the correspondence only",
+    "and of well-formed not-rooted trees whose ENCODED seed has >= 3 children (treeRecOf_unrooted_hts: every drawing outside the known-finding "
+    "class 'basal bifurcation survives'); Good (toH t) = distinct leaf taxa is assumed, not derived from the parser; SplitDistribution.update "
+    "(merge) is not an event of the cache model (oracle op `merge` only)",
 ]
 EXPLANATION = ("Theorems (all about the definitions the driver runs): frequency = weighted count / normaliser, 0 for absent splits; "
                "majority_consensus_reaches/_exact: rooted samples, threshold > 1/2 -> the consensus clades are exactly the star's plus the "
@@ -48,7 +50,12 @@ EXPLANATION = ("Theorems (all about the definitions the driver runs): frequency 
                "members: all only has to contain the members' bits; composed with treeRecOf, countAll and the driver's own rooting flag; "
                "Good (toH t) = distinct leaf taxa is assumed, not derived from the parser); "
                "scored_spec, score_spec, mcc_index_spec (scores are the sum / product of the scored splits' frequencies and the reported "
-               "index is the first maximiser); parseTree_lenWF + collapse_keeps_root_tip_parsed (no side condition on parsed input).")
+               "index is the first maximiser); parseTree_lenWF + collapse_keeps_root_tip_parsed (no side condition on parsed input); "
+               "majority_consensus_unrooted_reaches_ns (not-rooted, namespaces with removed members); treeRecOf_unrooted_hts (not-rooted bridge for "
+               "every seed drawing whose encoded seed has degree >= 3); parsed_encoded_ids_distinct + collapse_parsed_exact + collapseBelow_total "
+               "(parsed targets: ids distinct through the encoding, exactly the weak internal edges go, and the call answers when no leaf edge is "
+               "weak); strict_consensus_weighted(_exact) (threshold 1 under arbitrary non-negative weights: the tolerance admits exactly the splits "
+               "whose lacking weight is <= 1e-7 of the total; every split of every tree when each weight exceeds that).")
 
 THRESHOLDS = [None, 0.0, 0.25, 0.5, "GTH", 0.625, 0.75, 1.0]
 ROOTED = {"R": True, "U": False, "N": None}
@@ -777,10 +784,18 @@ def gen_incremental(ctx, dendropy):
         return None
     use_w = rng.random() < 0.5
     cuts = sorted(rng.sample(range(1, len(trees)), min(len(trees) - 1, rng.randint(1, 2))))
-    script = [[[rng.choice(["consensus", "summarize", "summarize", "freq", "scores", "mcc"]), rng.randrange(1 << 16)]
-               for _ in range(rng.randint(0, 3))] for _ in range(len(cuts) + 1)]
+    def options():
+        """the summarisation settings of ONE call; a later call on the same collection must not inherit them"""
+        r = rng.random()
+        if r < 0.5:
+            return {}
+        return rng.choice([{"support_as_percentages": True}, {"set_support_as_node_label": True}, {"set_edge_lengths": "support"},
+                           {"set_edge_lengths": "mean-length"}, {"set_edge_lengths": "median-length"}, {"support_attr_name": "posterior"},
+                           {"support_as_percentages": True, "set_edge_lengths": "support"}])
+    script = [[[rng.choice(["consensus", "summarize", "summarize", "freq", "scores", "mcc"]), rng.randrange(1 << 16), options()]
+               for _ in range(rng.randint(0, 4))] for _ in range(len(cuts) + 1)]
     if rng.random() < 0.7:
-        script[-1].append(["summarize", rng.randrange(1 << 16)])
+        script[-1].append(["summarize", rng.randrange(1 << 16), {}])
     return dict(sample_case(tns, trees, use_w, None, False), op="incremental", cuts=cuts, script=script)
 
 
@@ -816,6 +831,45 @@ def run_incremental(ctx, dendropy, case, pending=None):
             pending.append(("hist %d %d %s" % (use_w, len(events), " ".join(events)), case, {"hist": answers}))
 
 
+def annotation_problem(tree, fr, per_split, opts, what, untouched=None):
+    """a tree decorated by ONE summarising call made with the settings `opts` (and no others): support as fraction or percentage under
+    the requested attribute name, label set iff requested, edge lengths set iff requested (`untouched`: {id(node): length} to compare
+    with when they must not be set; None = not judged)"""
+    pct = bool(opts.get("support_as_percentages"))
+    name = opts.get("support_attr_name", "support")
+    mode = opts.get("set_edge_lengths")
+    for nd, s in node_splits(tree)[0]:
+        want = fr.get(s, Fraction(0)) * (100 if pct else 1)
+        sup = getattr(nd, name, None)
+        if sup is None or not close(sup, float(want), 1e-12):
+            return "%s: node of split %d has %s = %r, frequency is %s%s" % (what, s, name, sup, fr.get(s, 0), " (percentage requested)" if pct else " (no percentage requested)")
+        if opts.get("set_support_as_node_label"):
+            try:
+                lab = float(nd.label)
+            except (TypeError, ValueError):
+                lab = None
+            if lab is None or abs(lab - float(want)) > 0.5e-4 + 1e-9:
+                return "%s: label %r for split %d, support is %s" % (what, nd.label, s, want)
+        elif untouched is not None and nd.label is not None:
+            return "%s: node of split %d was given the label %r although no label was requested" % (what, s, nd.label)
+        L = nd.edge.length
+        if mode == "support":
+            if L is None or not close(L, float(want), 1e-12):
+                return "%s(set_edge_lengths='support'): edge of split %d has length %r, support is %s" % (what, s, L, want)
+        elif mode in ("mean-length", "median-length"):
+            vals = per_split.get(s)
+            if vals:
+                mean, med, _lo, _hi, _v = exact_stats(vals)
+                w = mean if mode == "mean-length" else med
+                if L is None or not close(L, float(w)):
+                    return "%s(set_edge_lengths=%r): edge of split %d has length %r, the %s of its values is %s" % (what, mode, s, L, mode[:-7], w)
+        elif untouched is not None and id(nd) in untouched:
+            was = untouched[id(nd)]
+            if (L is None) != (was is None) or (L is not None and Fraction(L) != Fraction(was)):
+                return "%s: edge of split %d has length %r after a call that requested no edge lengths (it was %r)" % (what, s, L, was)
+    return None
+
+
 def _run_incremental(ctx, dendropy, case, tns, trees, use_w, batches, script, ta, seen, events, ask_freq, ask_summ):
     rec_of = {id(t): r for t, r in zip(trees, case["trees"])}
     for batch, queries in zip(batches, script):
@@ -832,12 +886,18 @@ def _run_incremental(ctx, dendropy, case, tns, trees, use_w, batches, script, ta
             for s, l in c04.split_lengths(t).items():
                 per_split.setdefault(s, []).append(l)
         for q in queries:
-            q, pick = (q, 0) if isinstance(q, str) else q      # older recorded cases carry the query name only
+            q = [q, 0] if isinstance(q, str) else list(q)      # older recorded cases carry the query name only / no settings
+            q, pick, opts = (q + [{}])[:3]
             some = sorted(fr)[pick % len(fr)]
             if q == "consensus":
-                ta.consensus_tree(min_freq=0.5)
+                con = ta.consensus_tree(min_freq=0.5, **opts)
                 ask_summ(some, keep=False)      # the call reads the summary table, then the frequency table
                 ask_freq(some)
+                prob = annotation_problem(con, fr, per_split, opts, "consensus_tree(%s) after %d trees" % (opts, len(seen)),
+                                          untouched={id(nd): None for nd in tu.walk(con.seed_node)})
+                if prob:
+                    ctx.fail("settings", prob, case)
+                    return
             elif q == "freq":
                 for s, f in sorted(fr.items()):
                     v = ask_freq(s)
@@ -849,9 +909,13 @@ def _run_incremental(ctx, dendropy, case, tns, trees, use_w, batches, script, ta
                 ta.calculate_sum_of_split_supports()
                 ask_freq(some)
             elif q == "mcc":
-                ta.maximum_product_of_split_support_tree()
+                best = ta.maximum_product_of_split_support_tree(**opts)
                 ask_summ(some)
                 ask_freq(some)
+                prob = annotation_problem(best, fr, per_split, opts, "maximum_product_of_split_support_tree(%s) after %d trees" % (opts, len(seen)))
+                if prob:
+                    ctx.fail("settings", prob, case)
+                    return
             else:
                 tgt = c04.clone(dendropy, seen[pick % len(seen)])
                 # the summary-table reads the call is about to make (age summaries, then length summaries), visible to the model; frequencies after it
@@ -859,16 +923,18 @@ def _run_incremental(ctx, dendropy, case, tns, trees, use_w, batches, script, ta
                 ask_summ.ages()
                 for s in tsplits:
                     ask_summ(s)
-                ta.summarize_splits_on_tree(tgt)
+                tgt.encode_bipartitions()       # normal form first, so that "edge lengths untouched" can be read off node by node
+                was = {id(nd): nd.edge.length for nd in tu.walk(tgt.seed_node)}
+                ta.summarize_splits_on_tree(tgt, **opts)
                 ask_freq(some)
+                prob = annotation_problem(tgt, fr, per_split, opts, "summarize_splits_on_tree(%s) after %d trees" % (opts, len(seen)), untouched=was)
+                if prob:
+                    ctx.fail("settings" if opts or "requested" in prob else "stale", prob, case)
+                    return
                 for nd, s in node_splits(tgt)[0]:
                     vals = per_split.get(s, [])
                     if not vals:
                         continue
-                    if not close(getattr(nd, "support", -1), float(fr.get(s, 0)), 1e-12):
-                        ctx.fail("stale", "after %d trees, summarize_splits_on_tree gives support %r for split %d, frequency over all counted trees is %s" % (
-                            len(seen), getattr(nd, "support", None), s, fr.get(s)), case)
-                        return
                     prob = summary_problem(nd.edge, "length_", vals)
                     if prob:
                         ctx.fail("stale", "after %d trees, edge of split %d: %s" % (len(seen), s, prob), case)
